@@ -16,7 +16,9 @@ pub mod c11;
 pub mod c12;
 pub mod c13;
 pub mod c14;
+pub mod c16;
 pub mod c17;
+pub mod runs;
 
 pub fn run(id: &str, rep: &mut Report) -> bool {
     match id {
@@ -24,15 +26,29 @@ pub fn run(id: &str, rep: &mut Report) -> bool {
         "C02" => c02::run(rep),
         "C03" => c03::run(rep),
         "C04" => c04::run(rep),
-        "C05" => c05::run_part_a(rep),
-        "C06" => c06::run_part_a(rep),
-        "C07" => c07::run_part_a(rep),
+        "C05" => {
+            c05::run_part_a(rep);
+            rep.alpha("every component execution of every run of all 21 templates (step observer after each child of every sequential block): all individuals in all populations of all scopes, best individual, elitist archive, personal/global best particles, molecule memories");
+            runs::sweep(rep, crate::subject::templates::Flags { c05: true, ..Default::default() }, "templates.every-step.stale-objective-walk", &|_| true)
+        }
+        "C06" => {
+            c06::run_part_a(rep);
+            rep.alpha("every evaluation component and every firefly update of every run of all 21 templates: counter delta = objective calls (= population size for the evaluator); at the end of the run evaluations() = objective calls");
+            runs::sweep(rep, crate::subject::templates::Flags { c06: true, ..Default::default() }, "templates.every-step.evaluation-accounting", &|_| true);
+            c06::run_budget(rep)
+        }
+        "C07" => {
+            c07::run_part_a(rep);
+            rep.alpha("every best-individual update of every run of all 21 templates (best <= every member, monotone, replaced only on strict improvement); at the end of the run best = minimum the objective function returned");
+            runs::sweep(rep, crate::subject::templates::Flags { c07: true, ..Default::default() }, "templates.every-step.best-so-far", &|_| true)
+        }
         "C09" => c09::run(rep),
         "C10" => c10::run(rep),
         "C11" => c11::run(rep),
         "C12" => c12::run(rep),
         "C13" => c13::run(rep),
         "C14" => c14::run(rep),
+        "C16" => c16::run(rep),
         "C17" => c17::run(rep),
         _ => return false,
     }
@@ -46,15 +62,16 @@ pub fn replay(id: &str, case: &Value) -> Result<Vec<(String, String)>, String> {
         "C02" => c02::replay(case),
         "C03" => c03::replay(case),
         "C04" => c04::replay(case),
-        "C05" => c05::replay_a(case),
-        "C06" => c06::replay_a(case),
-        "C07" => c07::replay_a(case),
+        "C05" => if case.get("spec").is_some() { runs::replay(case) } else { c05::replay_a(case) },
+        "C06" => if case.get("spec").is_some() { runs::replay(case) } else { c06::replay_a(case) },
+        "C07" => if case.get("spec").is_some() { runs::replay(case) } else { c07::replay_a(case) },
         "C09" => c09::replay(case),
         "C10" => c10::replay(case),
         "C11" => c11::replay(case),
         "C12" => c12::replay(case),
         "C13" => c13::replay(case),
         "C14" => c14::replay(case),
+        "C16" => c16::replay(case),
         "C17" => c17::replay(case),
         _ => Err(format!("no replay for {}", id)),
     }
